@@ -33,8 +33,10 @@ def gen_plan(seed, tier="quick", variant=None):
     rng = random.Random(seed * 48271 % (2 ** 31) + 13)
     thorough = tier == "thorough"
     if variant is None:
-        variant = rng.choice(["route", "route", "timeout", "close", "cache", "garbage", "sweep"])
+        variant = rng.choice(["route", "route", "timeout", "close", "close_refresh", "cache", "cache", "garbage", "sweep"])
     nb = rng.randint(1, 5 if thorough else 4)
+    if variant == "close_refresh":
+        nb = rng.randint(3, 5)
     topics = []
     for i in range(rng.randint(1, 4)):
         np_ = rng.randint(1, 5)
@@ -49,7 +51,8 @@ def gen_plan(seed, tier="quick", variant=None):
         "client": {"timeout_ms": timeout_ms, "discover": rng.random() < 0.5, "retry": [round(rng.choice([0.01, 0.05, 0.2]), 3) for _ in range(3)],
                    "disconnect_on_timeout": rng.random() < 0.4, "client_id": rng.choice(["sim", "", "kläger-ü", "x" * 40])},
         "connect_timeout": rng.choice([0.5, 2.0]),
-        "warm": rng.random() < 0.6,
+        "close_lat": [0.0, rng.choice([0.001, 0.001, 0.02, 0.08])],
+        "warm": rng.random() < 0.6 or variant == "close_refresh",
         "coordinators": {g: rng.randint(1, nb) for g in GROUPS},
     }
     horizon = rng.choice([0.1, 0.5, 2.0])
@@ -97,10 +100,29 @@ def gen_plan(seed, tier="quick", variant=None):
                         "tps": rng.sample(all_tps, 1), "acks": 1, "nmsg": 1, "size": 5, "nullkey": False, "codec": 0, "offset": 0, "max_bytes": 100,
                         "max_wait": 0, "min_bytes": 1, "topics": [all_tps[0][0]], "group": "ga", "metadata": None, "generation": -1, "member": ""})
     faults = []
-    nf = rng.choice([0, 1, 2, 3, 5]) if variant != "sweep" else rng.choice([0, 0, 1])
+    if variant == "close_refresh":
+        cfg["close_lat"] = [0.005, rng.choice([0.02, 0.08])]
+        cfg["lat"] = [0.0005, 0.001]
+        cfg["seg"] = ["coalesce", "coalesce"]
+        ops = [o for o in ops if o["op"] != "close" and o.get("id", 0) < 100]
+        t0 = horizon * 0.5
+        gone = rng.sample(range(1, nb + 1), 2)
+        # a request on every broker first, so that every broker has an open connection
+        ops.append({"t": round(t0 - 0.02, 6), "op": "call", "id": 50, "kind": "offsets", "tps": all_tps[:], "time": -1, "max_offsets": 1})
+        dt1 = rng.choice([0.001, 0.004, 0.01])
+        faults.append({"t": round(t0, 6), "act": "hide_broker", "node": gone[0]})
+        ops.append({"t": round(t0 + 0.0005, 6), "op": "call", "id": 51, "kind": "metadata_all", "tps": []})
+        faults.append({"t": round(t0 + dt1, 6), "act": "hide_broker", "node": gone[1]})
+        ops.append({"t": round(t0 + dt1 + 0.0005, 6), "op": "call", "id": 52, "kind": "metadata_all", "tps": []})
+        ops.append({"t": round(t0 + dt1 + rng.choice([0.004, 0.008, 0.02, 0.05]), 6), "op": "close"})
+    nf = rng.choice([0, 1, 2, 3, 5]) if variant not in ("sweep", "close_refresh") else rng.choice([0, 0, 1])
+    if variant == "close_refresh":
+        nf = 0
     for _ in range(nf):
         kinds = ["error", "silent", "cut_before", "cut_mid", "cut_after", "delay", "delay", "refuse", "broker_down", "move_leader", "stale", "readdress",
-                 "add_topic", "remove_broker"]
+                 "add_topic", "remove_broker", "delete_topic", "shrink_topic"]
+        if variant == "cache":
+            kinds = ["delete_topic", "shrink_topic", "add_topic", "move_leader", "meta_error", "meta_error", "remove_broker", "readdress", "stale"]
         if variant == "garbage":
             kinds = ["garbage"] * 6 + ["delay"]
         if variant == "timeout":
@@ -125,7 +147,9 @@ def gen_plan(seed, tier="quick", variant=None):
                            "delay": round(rng.choice([0.3, 0.9, 0.999, 1.001, 1.1, 3.0]) * timeout_ms / 1000.0, 6)})
         elif kind == "garbage":
             faults.append({"api": api, "node": node, "nth": rng.randint(0, 2), "act": "garbage", "count": rng.choice([1, 2, 4]),
-                           "mode": rng.choice(["flip", "random", "truncate", "hostile_len", "hostile_len"])})
+                           "mode": rng.choice(["flip", "random", "truncate", "hostile_len", "hostile_len", "neg_msg_size", "neg_msg_size"])})
+            if faults[-1]["mode"] == "neg_msg_size":
+                faults[-1]["api"] = 1
         elif kind in ("refuse", "blackhole"):
             faults.append({"kind": "connect", "nth": rng.randint(0, 8), "what": rng.choice(["refused", "blackhole", "dns"]) if kind == "refuse" else "blackhole",
                            "count": rng.choice([1, 2, 5])})
@@ -150,8 +174,18 @@ def gen_plan(seed, tier="quick", variant=None):
             faults.append({"t": round(t0 + 0.05, 6), "act": "broker_up", "node": n, "host": "b%dz" % n, "port": 9393})
         elif kind == "add_topic":
             faults.append({"t": round(rng.random() * horizon, 6), "act": "add_partitions", "topic": rng.choice(topics)["name"], "n": rng.randint(1, 2)})
+        elif kind == "delete_topic":
+            faults.append({"t": round(rng.random() * horizon, 6), "act": "delete_topic", "topic": rng.choice(topics)["name"]})
+        elif kind == "shrink_topic":
+            faults.append({"t": round(rng.random() * horizon, 6), "act": "shrink_topic", "topic": rng.choice(topics)["name"]})
+        elif kind == "meta_error":
+            faults.append({"api": 3, "node": None, "nth": rng.randint(0, 3), "act": "error", "code": rng.choice([5, 3]), "count": rng.choice([1, 2])})
         elif kind == "remove_broker" and nb > 1:
             faults.append({"t": round(rng.random() * horizon, 6), "act": "broker_down", "node": rng.randint(1, nb), "elect": True})
+    if variant == "cache":
+        for j in range(rng.randint(1, 3)):
+            ops.append({"t": round(horizon * (1.0 + 0.2 * j) + rng.random() * 0.05, 6), "op": "call", "id": 60 + j,
+                        "kind": rng.choice(["metadata", "metadata", "metadata_all"]), "tps": [], "topics": sorted(set(tp[0] for tp in all_tps))})
     t_end = round(max([horizon * 1.6] + [f["t"] for f in faults if "t" in f] + [o["t"] for o in ops if "t" in o]) + 0.01, 6)
     return {"family": FAMILY, "seed": seed, "tier": tier, "cfg": cfg, "ops": ops, "faults": faults, "t_end": t_end}
 
@@ -322,6 +356,18 @@ def _run(w, plan):
             return
 
         def fired(wd, rec=rec):
+            if rec["kind"] == "fetch" and wd.ok:
+                # the application iterates what it fetched (lazily decoded message sets)
+                n = 0
+                for r in wd.value:
+                    try:
+                        for _om in r.messages:
+                            n += 1
+                            if n > 100000:
+                                res.violate("C12", "C12:unbounded-output-from-bounded-input", "more than 100000 messages decoded from one fetch response", sim)
+                                break
+                    except Exception as e:
+                        rec.setdefault("iter_errors", []).append(type(e).__name__)
             rec["t_done"] = wd.t
             rec["seq_done"] = wd.seq
             rec["timers_at_done"] = len(reactor.pending("client.py"))
@@ -403,6 +449,18 @@ def _run(w, plan):
         if all(c["w"] is None or c["w"].fires for c in calls.values()) and not reactor.pending("client.py"):
             break
     unresolved = [c["id"] for c in calls.values() if c["w"] is not None and not c["w"].fires]
+    if not state["closed"]:
+        # what the client believes right before the final close (C08 compares it with the last metadata answers)
+        try:
+            state["final_cache"] = {
+                "seq": len(sim.log),
+                "partitions": {t: list(v) for t, v in client.topic_partitions.items()},
+                "leaders": {(k.topic, k.partition): (b.node_id if b is not None else -1) for k, b in client.topics_to_brokers.items()},
+                "errors": dict(client.topic_errors),
+                "clients": sorted(client.clients) if client.clients else [],
+            }
+        except Exception:
+            pass
     if not state["closed"]:
         sim.at(sim.now + 0.001, do_op, {"op": "close"})
     run_until(sim.now + 60.0)
@@ -550,6 +608,10 @@ def _oracles(w, plan, res, client, calls, state, cache_versions, unresolved, tim
         # results
         if wd.ok:
             if c["kind"] == "produce" and o["acks"] == 0:
+                # no responses exist: success means every payload was handed to a connection
+                missing = [tp for tp in uniq if tp not in carried]
+                if missing:
+                    res.violate("C07", "C07:payload-unaccounted-on-success:acks0", "call %d (acks=0) succeeded but payloads %r were never written to any broker" % (c["id"], missing[:5]))
                 continue
             got = [(r.topic, r.partition) for r in wd.value]
             want = [tp for tp in uniq if tp in set(got)]
@@ -706,58 +768,66 @@ def _check_c05(w, res, calls, APIKEY):
 
 
 def _check_c08(w, res, client, calls, state):
-    """When a load the workload issued completes, the client's view of the covered topics equals the one metadata
-    frame delivered for it; connections to brokers absent from a full refresh were closed by the client."""
+    """Right before the final close, the client's view of every topic equals the last metadata answer delivered
+    for that topic (partitions, leader per partition, topic error); stale entries must not survive an answer that
+    no longer contains them."""
     cl, net, sim = w.cluster, w.net, w.sim
-    metas = [e for e in cl.reqlog if e["key"] == kwire.METADATA and e.get("resp_body") is not None and e.get("delivered_seq") is not None
-             and e.get("act") not in ("garbage", "cut_mid")]
-    if not metas or state["closed"] and state["close_seq"] is not None and False:
+    fc = state.get("final_cache")
+    if fc is None:
         return
-    # final state check: replay every delivered metadata answer in delivery order over an empty model and compare
-    # with the client's cache at the end of the fault phase is blurred by resets; instead check the *last* full answer
+    metas = [e for e in cl.reqlog if e["key"] == kwire.METADATA and e.get("resp_body") is not None and e.get("delivered_seq") is not None
+             and e.get("act") not in ("garbage", "cut_mid") and e["delivered_seq"] < fc["seq"]]
     last_for_topic = {}
     for e in sorted(metas, key=lambda e: e["delivered_seq"]):
         for t in e["resp_body"]["topics"]:
             last_for_topic[t["name"]] = (e, t)
-    if state["closed"]:
-        return
     for name, (e, t) in last_for_topic.items():
-        # only judge topics whose cache entry was not invalidated after that answer (resets are legitimate)
-        later_reset = any(rec[2] == "api" for rec in ())
-        parts_now = client.topic_partitions.get(name)
-        if parts_now is None:
-            continue
-        res.oblige("C08")
+        parts_now = fc["partitions"].get(name)
         want = sorted(p["id"] for p in t["partitions"])
+        res.oblige("C08")
+        if parts_now is None:
+            # the topic's routing was invalidated (legitimate after NotLeader / a failed send) or the answer had no partitions
+            stale = sorted(tp for tp in fc["leaders"] if tp[0] == name)
+            if stale and not want:
+                res.violate("C08", "C08:stale-leaders-survive-an-answer-without-partitions", "topic %s: last answer had no partitions (error %d) but leaders for %r are still cached" % (
+                    name, t["error"], stale[:4]))
+            continue
         if sorted(parts_now) != want:
-            res.violate("C08", "C08:cached-partitions-differ-from-last-answer", "topic %s: cache %r, last metadata answer %r" % (name, sorted(parts_now), want))
+            res.violate("C08", "C08:cached-partitions-differ-from-last-answer", "topic %s: cache %r, last metadata answer %r (topic error %d)" % (
+                name, sorted(parts_now), want, t["error"]))
+            continue
+        extra = sorted(tp for tp in fc["leaders"] if tp[0] == name and tp[1] not in want)
+        if extra:
+            res.violate("C08", "C08:stale-leaders-for-vanished-partitions", "topic %s: leaders cached for %r which the last answer no longer lists" % (name, extra[:4]))
             continue
         for p in t["partitions"]:
-            from afkak.common import TopicAndPartition
-            b = client.topics_to_brokers.get(TopicAndPartition(name, p["id"]), "absent")
-            if b == "absent":
+            have = fc["leaders"].get((name, p["id"]), "absent")
+            if have == "absent":
                 continue
-            have = b.node_id if b is not None else -1
             if have != p["leader"]:
                 res.violate("C08", "C08:cached-leader-differs-from-last-answer", "%s/%d: cache says node %r, last metadata answer %r" % (name, p["id"], have, p["leader"]))
                 break
-        if client.topic_errors.get(name, 0) != t["error"] and name in client.topic_errors:
-            res.violate("C08", "C08:cached-topic-error-differs", "topic %s: cache %r answer %r" % (name, client.topic_errors.get(name), t["error"]))
-    # full refresh: connections to brokers missing from the answer were closed by the client
-    for c in calls.values():
-        if c["kind"] != "metadata_all" or c["w"] is None or not c["w"].ok:
-            continue
-        wd = c["w"]
-        ans = [e for e in metas if c["seq"] <= e["delivered_seq"] <= wd.seq and not e["body"]["topics"]]
-        if not ans:
-            continue
-        nodes = set(b["node"] for b in ans[-1]["resp_body"]["brokers"])
-        if not nodes:
-            continue
+        if name in fc["errors"] and fc["errors"][name] != t["error"]:
+            res.violate("C08", "C08:cached-topic-error-differs", "topic %s: cache %r answer %r" % (name, fc["errors"][name], t["error"]))
+    # full refresh: connections to brokers missing from the last full answer were closed by the client
+    full = [e for e in metas if not e["body"]["topics"] and e["resp_body"]["brokers"]]
+    if full:
+        last_full = full[-1]
+        nodes = set(b["node"] for b in last_full["resp_body"]["brokers"])
+        # brokers learnt later (coordinator lookups) may legitimately be known in addition
+        later = set()
+        for e in cl.reqlog:
+            if e["key"] in (kwire.FIND_COORDINATOR, kwire.METADATA) and e.get("delivered_seq") is not None and e["delivered_seq"] > last_full["delivered_seq"] and e.get("resp_body"):
+                if e["key"] == kwire.FIND_COORDINATOR:
+                    later.add(e["resp_body"]["node"])
+                else:
+                    later.update(b["node"] for b in e["resp_body"]["brokers"])
         res.oblige("C08")
-        for node, bc in list(client.clients.items()) if client.clients else []:
-            if node not in nodes and wd.seq >= sim.log[-1][0]:
-                res.violate("C08", "C08:connection-to-removed-broker-kept", "node %d absent from the full refresh is still in clients" % node)
+        kept = [n for n in fc["clients"] if n not in nodes and n not in later]
+        # only brokers the client had a client object for *before* that answer count
+        if kept:
+            open_conns = [c for c in net.conns if c.pid == "p0" and not c.client_lost and c.opened_at <= last_full.get("delivered_t", 0)]
+            res.violate("C08", "C08:connection-to-removed-broker-kept", "brokers %r are absent from the last full refresh but still have broker clients" % kept)
 
 
 def _check_c04_fields(w, res, calls, written, APIKEY):
